@@ -33,7 +33,7 @@ const A_DEDENT: &[&str] = &[" ", "\t", "a", "\n", "\r\n", "b", "\u{3000}"];
 const A_INDENT: &[&str] = &[" ", "\t", "a", "\n", "\r", "é", "\u{3000}"];
 const A_UNFILL: &[&str] = &[" ", "a", "\n", "\r\n", ">", "-", "*", "é", "\r", "/"];
 const A_COLOUR_WORDS: &[&str] = &["ab", "c", "你好", "d-e", "fgh", "-"];
-const VOCAB: &[&str] = &["a", "bb", "ccc", "dddd", "é", "ff"];
+const VOCAB: &[&str] = &["a", "bb", "ccc", "dddd", "é", "你好", "好"];
 
 fn widths_small() -> Vec<usize> {
     vec![0, 1, 2, 3, 4, 6, 9, usize::MAX]
@@ -410,8 +410,8 @@ fn run_property(prop: &str, ctx: &mut Ctx) {
         "C07" => {
             frag_cases(ctx, "C07.first_fit.greedy", "a new line starts exactly when the line is non-empty and acc + width + penalty > line width", l(4, 5), c07_greedy, false, vec![DEFAULT_PEN]);
             frag_random(ctx, "C07.first_fit.greedy.random", "same, arbitrary finite f64", if th { 400_000 } else { 50_000 }, 16, true, c07_greedy, false);
-            ctx.wrap_suite("C07.wrap.greedy_text", "ASCII separator, no splitter, no force-breaking: wrap == the greedy rule applied to the space-delimited words",
-                A_WRAP, l(4, 5), first_fit_only(option_grid(true)).into_iter().filter(|o| o.sep == Sep::Ascii && o.spl == Spl::None && !o.break_words).collect(), vec![0, 1, 2, 3, 4, 5, 6, 8], l(3, 3), if th { 300_000 } else { 40_000 }, props_wrap::c07_text);
+            ctx.wrap_suite("C07.wrap.greedy_text", "ASCII separator, hyphen or no splitter, no force-breaking: wrap == the greedy rule applied to the space-delimited words cut at the splitter's split points",
+                A_WRAP, l(4, 5), first_fit_only(option_grid(true)).into_iter().filter(|o| o.sep == Sep::Ascii && o.spl != Spl::Every2 && !o.break_words).collect(), vec![0, 1, 2, 3, 4, 5, 6, 8], l(3, 3), if th { 300_000 } else { 40_000 }, props_wrap::c07_text);
         }
         "C08" => {
             ctx.wrap_suite("C08.wrap.indent", "line 0 starts with initial_indent, later lines with subsequent_indent; remainder depends only on the indents' widths",
